@@ -3,7 +3,7 @@
 Theorems: coq/Props/C02.v over coq/Model/MpsNet.v (one-hot mixtures, network-level export soundness over
 abstract tensors, sharing partition / input-quantizer wiring by induction over the node list).
 
-Cases: grammar networks (vlib/mps_gen.py) x activation / weight precision tuples from {2,4,8} (1..3
+Cases: grammar networks (vlib/mps_gen.py; Conv2d, 1 in 5 Conv1d) x activation / weight precision tuples from {2,4,8} (1..3
 candidates, any order) x random coefficients with arg-max margin >= 0.05 x temperature in [0.05,20] x
 gumbel / hard / disable_shared_quantizers flags x optional training-mode forward before eval.
 Oracle (implementation only): torch.equal(MPS.eval()(x), MPS.export().eval()(x)) on the first pass AND on 2-3 further passes through
@@ -24,7 +24,7 @@ PRECS = [2, 4, 8]
 
 
 def gen_case(rng, idx, first=None):
-    nodes = G.gen_spec(rng, first=first)
+    nodes = G.gen_spec(rng, first=first, dim=1 if rng.random() < 0.2 else 2)     # 1 in 5: Conv1d network
     if rng.random() < 0.6:        # biased depthwise / residual pairs (shared weight quantizer) must occur often
         for nd in nodes:
             if nd['k'] in ('conv', 'dw'):
@@ -64,9 +64,9 @@ def run_case(c):
         from plinio.methods.mps.nn.qtz import MPSPerLayerQtz
         nodes = c['nodes']
         m = G.build(nodes, c['seed'])
-        ci, hw = nodes[0]['c'], nodes[0]['hw']
+        ishape = G.input_shape(nodes)
         stage = 'convert'
-        p = MPS(m, input_shape=(ci, hw, hw), qinfo=get_default_qinfo(tuple(c['wp']), tuple(c['ap'])),
+        p = MPS(m, input_shape=ishape, qinfo=get_default_qinfo(tuple(c['wp']), tuple(c['ap'])),
                 temperature=c['T'], gumbel_softmax=c['gumbel'], hard_softmax=c['hard'],
                 disable_shared_quantizers=c['dsq'])
         rng = random.Random(c['aseed'])
@@ -91,7 +91,7 @@ def run_case(c):
                         b[1] = 1.0
                         mod.in_mps_quantizer.alpha.copy_(b)
         g = torch.Generator().manual_seed(c['seed'] ^ 0x5bd1)
-        x = torch.rand(2, ci, hw, hw, generator=g) * 1.3 - 0.1
+        x = torch.rand((2,) + ishape, generator=g) * 1.3 - 0.1
         stage = 'forward'
         if c['pretrain']:
             p.train()
@@ -119,7 +119,7 @@ def run_case(c):
                 e.train(); e.eval()
                 p.train(); p.eval()
                 continue
-            xk = x if what == 'same' else torch.rand(1 + (c['seed'] + k_) % 3, ci, hw, hw, generator=g) * 1.3 - 0.1
+            xk = x if what == 'same' else torch.rand((1 + (c['seed'] + k_) % 3,) + ishape, generator=g) * 1.3 - 0.1
             with torch.no_grad():
                 yek = e(xk)
                 yk = p(xk)
@@ -317,6 +317,7 @@ def run(ctx):
         for k in set(kinds):
             ctx.dist['node:' + k] += 1
         ctx.dist['nprec_a:%d' % len(c['ap'])] += 1
+        ctx.dist['conv%dd' % c['nodes'][0].get('dim', 2)] += 1
         ctx.dist['T:%s' % ('0.05' if c['T'] == 0.05 else '20' if c['T'] == 20 else 'mid')] += 1
         for fl in ('gumbel', 'hard', 'dsq', 'pretrain'):
             ctx.dist['%s:%s' % (fl, c[fl])] += 1
@@ -328,7 +329,7 @@ def run(ctx):
         by = {}
         for i, ent in o.get('layers', {}).items():
             nd = c['nodes'][int(i)]
-            fused_bn = any(m['k'] == 'bn' and m['src'] == int(i) for m in c['nodes'])
+            fused_bn = any(m['k'] == 'bn' and m['src'] == int(i) for m in c['nodes']) and (nd['k'] == 'lin' or c['nodes'][0].get('dim', 2) == 2)
             if ent.get('w') is not None and (nd.get('bias') or fused_bn):
                 by.setdefault(ent['w'], []).append(int(i))
         return sum(1 for v in by.values() if len(v) >= 2)
@@ -385,7 +386,7 @@ def run(ctx):
                         'eval-mode coefficients = one-hot at arg-max alpha is a premise of C02_export_sound_argmax (property C10); observed on every quantizer of every case (theta_not_onehot_at_argmax)',
                         'disable_sampling=True is outside the quantifier (C10 finding) and never generated']
 
-    if not ctx.violations and not ctx.known_printed:
+    if not ctx.violations:   # a printed KNOWN-FINDING must not hide a broken proof / model / correspondence
         if not built:
             ctx.violation('proof-broken', {'theorems': [o_[0] for o_ in ctx.obligations if not o_[1]], 'log': getattr(ctx, 'broken_log', '')[-3000:]}, 'Props/C02.v no longer checks', no_input=True)
         elif not model_ok:
